@@ -949,6 +949,9 @@ func vspRunScenario(line string) (out string) {
 			go e.runActor(a)
 			return
 		}
+		// the actor counts as running from the moment it is released (not from the moment its goroutine
+		// wakes up): otherwise the scheduler could take the system for quiescent in between
+		a.state = vspRunning
 		s.mu.Unlock()
 		a.release <- struct{}{}
 	}
